@@ -225,6 +225,27 @@ def require_tlc_ok(r, what, need_actions=()):
 # ---------------------------------------------------------------------------------------------
 # verdicts
 
+def validate_evidence(path, schema="/root/.vp/EVIDENCE.schema.json"):
+    """Validate an evidence file with the tooling interpreter (jsonschema lives there); returns an error text or None.
+    Skipped silently when the schema or the interpreter is not available."""
+    import shutil
+    import subprocess
+    py = shutil.which("python3-vt")
+    if not py or not os.path.exists(schema):
+        return None
+    code = ("import json,sys,jsonschema\n"
+            "v=jsonschema.Draft202012Validator(json.load(open(sys.argv[1])))\n"
+            "errs=[('/'.join(map(str,e.path))+': '+e.message[:200]) for e in v.iter_errors(json.load(open(sys.argv[2])))]\n"
+            "print('\\n'.join(errs[:5]))\n")
+    try:
+        p = subprocess.run([py, "-c", code, schema, path], stdout=subprocess.PIPE, stderr=subprocess.PIPE, text=True, timeout=120)
+    except (OSError, subprocess.TimeoutExpired):
+        return None
+    if p.returncode != 0:
+        return None           # the validator itself could not run: not a statement about the evidence
+    return p.stdout.strip() or None
+
+
 class Verdict:
     """Collects what a check run covered and found; writes the evidence file; sets exit status."""
 
@@ -309,6 +330,9 @@ class Verdict:
         with open(tmp, "w") as fh:
             json.dump(ev, fh, indent=1, default=str)
         os.replace(tmp, os.path.join(EVIDENCE, "%s.json" % self.prop))
+        problem = validate_evidence(os.path.join(EVIDENCE, "%s.json" % self.prop))
+        if problem:
+            raise ToolError("evidence file does not validate against the schema: " + problem)
         for fid, what in sorted(self.known_hits.items()):
             log("KNOWN-FINDING: property=%s %s (%s)" % (self.prop, what, fid))
         for d in self.drift[:10]:
